@@ -88,7 +88,8 @@ def _gen_entry(rng):
   return {'kind': 'invalid',
           'val': rng.choice(['int', 'bad name', 'a//b', 'tuple', 'list_bad',
                              '/a', 'a/', 'truth_raises', 'float', 'dict',
-                             'bytes', 'list_int'])}
+                             'bytes', 'list_int', 'trailing_newline',
+                             'list_trailing_newline'])}
 
 
 def _gen_ops(rng, depth, budget, allow_spawn, nrefs):
@@ -232,7 +233,8 @@ def _entry_object(entry, captured):
   return {'int': 4, 'bad name': 'bad name', 'a//b': 'a//b', 'tuple': ('a',),
           'list_bad': ['a', 'b c'], '/a': '/a', 'a/': 'a/',
           'truth_raises': _TruthRaises(), 'float': 1.5, 'dict': {'a': 1},
-          'bytes': b'a', 'list_int': ['a', 3]}[v]
+          'bytes': b'a', 'list_int': ['a', 3], 'trailing_newline': 'a\n',
+          'list_trailing_newline': ['a', 'b\n']}[v]
 
 
 # ---------------------------------------------------------------------------
